@@ -587,6 +587,56 @@ func (s *Session) CheckExtent() {
 }
 
 // ---------------------------------------------------------------------------
+// ShrinkUnderFault lowers the limit of a preallocated file below its size (Open with
+// FlagUpdMaxSize), with openFault: while one write or sync inside that Open fails. Whatever the
+// Open reports, the file must open again, show the committed data and have a sane allocator.
+// Returns false if the session can not go on.
+func (s *Session) ShrinkUnderFault(r *RNG, openFault bool, prop string) bool {
+	if r.Chance(60) {
+		s.FreeTail(r)
+	}
+	if openFault {
+		// an I/O error inside the shrinking Open itself (max-size update / release of the excess pages)
+		k := []string{"write", "write", "sync"}[r.Intn(3)]
+		base, _ := s.Disk.CallCounts()
+		from := base[k] + r.Intn(4)
+		s.Disk.SetFault(func(kk string, n, total int) simdisk.Action {
+			if kk == k && n == from {
+				s.IOFault = true
+				return simdisk.ActErr
+			}
+			return simdisk.ActOK
+		})
+		s.mark("fault-in-shrinking-open")
+		// The acceptor follows ONE engine instance through the commit protocol of ordinary
+		// transactions. An Open failing under a fault ends the instance in the middle of the header-only
+		// max-size transaction (no restore: the header names the unchanged state), its cleanup
+		// truncates, and the next instance re-reads the headers: the log is not walked past this point
+		// (the oracles below check the outcome).
+		s.Disk.Mark("acceptor-stop")
+	}
+	noFail := len(s.Failures)
+	ok := s.ShrinkBelowFileSize(r)
+	s.Disk.SetFault(nil)
+	if ok {
+		s.mark("shrink-below-file-size")
+	} else if openFault {
+		// the Open may fail under the fault; that is an error result, not a violation: the file must open again
+		s.Failures = s.Failures[:noFail]
+
+		if s.F == nil && s.Open() != "ok" {
+			s.fail(prop, "fault-open", "the file can not be opened after an Open that failed with an I/O error")
+			return false
+		}
+	}
+	if s.F == nil {
+		return false
+	}
+	s.ReadCheck(prop)
+	s.AccountCheck()
+	return true
+}
+
 // C08: I/O faults
 
 // FaultStats summarise a fault run.
@@ -627,49 +677,9 @@ func RunFaultProgram(r *RNG, cfg Config, p Params) (*Session, FaultStats) {
 		return s, st
 	}
 	if truncPath {
-		if r.Chance(60) {
-			s.FreeTail(r)
-		}
-		openFault := r.Chance(40)
-		if openFault {
-			// an I/O error inside the shrinking Open itself (max-size update / release of the excess pages)
-			k := []string{"write", "write", "sync"}[r.Intn(3)]
-			base, _ := s.Disk.CallCounts()
-			from := base[k] + r.Intn(4)
-			s.Disk.SetFault(func(kk string, n, total int) simdisk.Action {
-				if kk == k && n == from {
-					s.IOFault = true
-					return simdisk.ActErr
-				}
-				return simdisk.ActOK
-			})
-			s.mark("fault-in-shrinking-open")
-			// The acceptor follows ONE engine instance through the commit protocol of ordinary
-			// transactions. An Open failing under a fault ends the instance in the middle of the header-only
-			// max-size transaction (no restore: the header names the unchanged state), its cleanup
-			// truncates, and the next instance re-reads the headers: the log is not walked past this point
-			// (the oracles below check the outcome).
-			s.Disk.Mark("acceptor-stop")
-		}
-		noFail := len(s.Failures)
-		ok := s.ShrinkBelowFileSize(r)
-		s.Disk.SetFault(nil)
-		if ok {
-			s.mark("shrink-below-file-size")
-		} else if openFault {
-			// the Open may fail under the fault; that is an error result, not a violation: the file must open again
-			s.Failures = s.Failures[:noFail]
-
-			if s.F == nil && s.Open() != "ok" {
-				s.fail("C08", "fault-open", "the file can not be opened after an Open that failed with an I/O error")
-				return s, st
-			}
-		}
-		if s.F == nil {
+		if !s.ShrinkUnderFault(r, r.Chance(40), "C08") {
 			return s, st
 		}
-		s.ReadCheck("C08")
-		s.AccountCheck()
 	}
 	// fault window
 	act := simdisk.ActErr
